@@ -526,7 +526,29 @@ func c20Hysteresis(c *Ctx, re string) {
 		return
 	}
 	st := stores[0]
-	isLast := func(v ssa.Value) bool { return p.memKey(v) == "g:server.healthStatus" }
+	// the transition is computed in healthCheck itself, or in a step of it that was given a name: a function of
+	// the package whose result is what gets stored. Its parameters stand for what healthCheck passes.
+	host := hc
+	var via *ssa.Call
+	if call, _ := resultOf(st.Val); call != nil {
+		if g := call.Common().StaticCallee(); g != nil && pkgOf(g) == pkgOf(hc) && len(g.Blocks) > 0 {
+			if cc, ok := call.(*ssa.Call); ok {
+				host, via = g, cc
+				c.Analysed(p.FName(g))
+			}
+		}
+	}
+	actual := func(v ssa.Value) ssa.Value {
+		if pa, ok := v.(*ssa.Parameter); ok && via != nil {
+			for k, hp := range host.Params {
+				if hp == pa && k < len(via.Call.Args) {
+					return via.Call.Args[k]
+				}
+			}
+		}
+		return v
+	}
+	isLast := func(v ssa.Value) bool { return p.memKey(actual(v)) == "g:server.healthStatus" }
 	isN := func(v ssa.Value) bool {
 		_, fld, _ := p.fieldLoad(v)
 		return fld == "TokenCheckFailures"
@@ -537,6 +559,7 @@ func c20Hysteresis(c *Ctx, re string) {
 	}
 	// "no token failed": len(notOK) == 0 where notOK grows only under pingOne == false
 	isLenZero := func(v ssa.Value) (ssa.Value, bool) {
+		v = actual(v)
 		bo, ok := v.(*ssa.BinOp)
 		if !ok || bo.Op != token.EQL || !isIntConst(bo.Y, 0) {
 			return nil, false
@@ -575,11 +598,17 @@ func c20Hysteresis(c *Ctx, re string) {
 		bo, ok := f.V.(*ssa.BinOp)
 		return ok && bo.Op == token.GTR && isLast(bo.X) && isIntConst(bo.Y, 0)
 	}}
-	if len(passEdges(hc, allOK)) == 0 {
+	if len(passEdges(host, allOK)) == 0 {
 		c.Fail(re, "(*server.Server).healthCheck all-ok test", p.Pos(hc.Pos()), "no `len(failed) == 0` test found: the reset-on-success branch is missing")
 		return
 	}
 	leaves := phiLeaves(st.Val, st.Block(), map[*ssa.Phi]bool{})
+	if via != nil {
+		leaves = nil
+		for _, r := range returnsOf(host) {
+			leaves = append(leaves, phiLeaves(retVal(r, 0), r.Block(), map[*ssa.Phi]bool{})...)
+		}
+	}
 	sawN, sawDec := false, false
 	for i, lf := range leaves {
 		key := fmt.Sprintf("(*server.Server).healthCheck next#%d", i+1)
@@ -587,12 +616,12 @@ func c20Hysteresis(c *Ctx, re string) {
 		switch {
 		case isN(lf.V):
 			sawN = true
-			c.Check(!leafUnguarded(hc, lf, allOK), re, key+" reset", pos, "counter reset to N only when no token failed", "counter is reset to the configured maximum on a path where some token failed (hysteresis lost)")
+			c.Check(!leafUnguarded(host, lf, allOK), re, key+" reset", pos, "counter reset to N only when no token failed", "counter is reset to the configured maximum on a path where some token failed (hysteresis lost)")
 		case isDec(lf.V):
 			sawDec = true
-			c.Check(!leafUnguarded(hc, lf, someFailed) && !leafUnguarded(hc, lf, lastPos), re, key+" decrement", pos, "counter decremented only on failure and only while > 0", "counter decremented on a success path or below zero")
+			c.Check(!leafUnguarded(host, lf, someFailed) && !leafUnguarded(host, lf, lastPos), re, key+" decrement", pos, "counter decremented only on failure and only while > 0", "counter decremented on a success path or below zero")
 		case isLast(lf.V):
-			c.Check(!leafUnguarded(hc, lf, someFailed), re, key+" unchanged", pos, "counter left unchanged only on the failure side (already 0)", "a fully successful check can leave the counter unchanged: one success does not restore health")
+			c.Check(!leafUnguarded(host, lf, someFailed), re, key+" unchanged", pos, "counter left unchanged only on the failure side (already 0)", "a fully successful check can leave the counter unchanged: one success does not restore health")
 		default:
 			c.Fail(re, key+" value", pos, "value stored into the health counter is neither N, last-1 nor last: "+short(lf.V.String(), 60))
 		}
